@@ -250,7 +250,7 @@ def do_check(a):
     proofs = listing["proofs"]
     if a.only:
         proofs = [p for p in proofs if a.only in p["name"]]
-    sjobs = [(p["name"], ci, vc_timeout, job_timeout, seed) for p in proofs for ci in p["cases"]]
+    sjobs = [(p["name"], ci, vc_timeout, job_timeout, seed) for p in proofs if p["level"] != "B" for ci in p["cases"]]
     nsamp = (lambda p: p["samples"] if tier == "quick" else p["samples"] * 8)
     cjobs = [(p["name"], ci, None, seed, nsamp(p)) for p in proofs if p["bounded"] for ci in p["cases"]]
 
